@@ -112,6 +112,7 @@ def run(ctx):
     ctx.ob("R15.2", "slash-test-over-cmd", ok, pe.loc(st_bb or 0), "the slash test must run over the bytes of the command name (the executable when one is named), not over argv[0] or anything else")
     is_st = lambda c: c[0] == "call" and c[1] == st_name and (len(c) < 4 or c[3] == st_bb)
     c1 = None
+    c1_is_filter = False
     t_e = bool_edges(pe, Tp, is_st, True)
     f_e = bool_edges(pe, Tp, is_st, False)
     sp_locals = [i for i, l in enumerate(pe.locals) if l.get("name") == "search_path"]
@@ -123,13 +124,22 @@ def run(ctx):
             if v == ("agg", ("adt", "std::option::Option", "None"), ()):
                 ctx.ob("R15.2", "slash=>no-search", dominated_by_edges(pe, bb, t_e), pe.loc(bb), "search_path = None only when the name contains a slash")
             else:
-                okv = v[0] == "call" and v[1] == "std::option::Option::<T>::and_then" and v[2][0][0] == "call" and v[2][0][1] == "std::env::var_os" and v[2][0][2][0][1] == "PATH" \
+                okv = v[0] == "call" and v[1] in ("std::option::Option::<T>::and_then", "std::option::Option::<T>::filter") and v[2][0][0] == "call" and v[2][0][1] == "std::env::var_os" and v[2][0][2][0][1] == "PATH" \
                     and v[2][1][0] == "agg" and v[2][1][1][0] == "closure"
                 if okv:
                     c1 = prog.fn(v[2][1][1][1])
+                    c1_is_filter = v[1].endswith("::filter")
                 ctx.ob("R15.2", "no-slash=>PATH", okv and dominated_by_edges(pe, bb, f_e), pe.loc(bb), "search_path = %s (must be var_os(\"PATH\") filtered for emptiness, on the no-slash edge)" % M.term_str(v)[:120])
     okc1 = False
-    if c1:
+    if c1 and c1_is_filter:
+        # filter(|p| !p.is_empty()) / filter(|p| p.len() != 0): keep exactly the non-empty value
+        T1 = M.Terms(c1)
+        r1 = M.noref(T1.local(0))
+        isp = lambda u: M.peel(u) == ("param", 2, c1.local_name(2)) or (M.peel(u)[0] == "call" and M.peel(M.peel(u)[2][0]) == ("param", 2, c1.local_name(2)))
+        okc1 = (r1[0] == "un" and r1[1] == "Not" and r1[2][0] == "call" and r1[2][1].endswith("::is_empty") and isp(r1[2][2][0])) or \
+            (r1[0] == "bin" and r1[1] == "Ne" and const_of(r1[3]) == 0 and r1[2][0] == "call" and r1[2][1].endswith("::len") and isp(r1[2][2][0])) or \
+            (r1[0] == "bin" and r1[1] == "Gt" and const_of(r1[3]) == 0 and r1[2][0] == "call" and r1[2][1].endswith("::len") and isp(r1[2][2][0]))
+    elif c1:
         T1 = M.Terms(c1)
         e = bool_edges(c1, T1, lambda c: c[0] == "bin" and c[1] == "Eq" and const_of(c[3]) == 0 and M.contains(c[2], lambda u: u[0] == "call" and u[1] == "std::ffi::OsStr::len"), True)
         nn = [bb for bb in c1.live_blocks() for s in c1.blocks[bb]["stmts"] if s["k"] == "assign" and s["p"]["l"] == 0 and s["r"].get("variant") == "None"]
@@ -255,15 +265,18 @@ def run(ctx):
             rt = [Ts.operand(t["args"][1]) for _, t in idx]
             to = [x for x in rt if x[0] == "agg" and x[1][1] == "std::ops::RangeTo"]
             fr = [x for x in rt if x[0] == "agg" and x[1][1] == "std::ops::RangeFrom"]
-            ok = len(to) == 1 and len(fr) == 1 and to[0][2][0] == posterm
-            if ok:
-                st = fr[0][2][0]
+            def is_pos1(st):
                 st = st[1] if st[0] == "field" else st
-                ok = st[0] == "bin" and st[1] in ("Add", "AddWithOverflow") and st[2] == posterm and const_of(st[3]) == 1
+                return st[0] == "bin" and st[1] in ("Add", "AddWithOverflow") and st[2] == posterm and const_of(st[3]) == 1
+            is_len = lambda st: st[0] == "call" and st[1].endswith("<impl [T]>::len")
+            # one cut before the separator, one after it; a further [len..] (the empty remainder of the last piece) is harmless
+            ok = len([x for x in to if x[2][0] == posterm]) == 1 and len(to) == 1 and len([x for x in fr if is_pos1(x[2][0])]) == 1 \
+                and all(is_pos1(x[2][0]) or is_len(M.noref(x[2][0])) for x in fr)
         ctx.ob("R15.5", "piece=[..pos],rest=[pos+1..]", ok, sc.loc(0), "the piece is bytes[..pos] and the remainder bytes[pos+1..] for the same pos returned by position()")
         somes = [(bb, si, s) for bb in sc.live_blocks() for si, s in enumerate(sc.blocks[bb]["stmts"]) if s["k"] == "assign" and s["p"]["l"] == 0 and s["r"].get("variant") == "Some"]
-        ne = bool_edges(sc, Ts, lambda c: c[0] == "call" and c[1] == "std::ffi::OsStr::is_empty", False)
-        ok = len(somes) == 2 and all(dominated_by_edges(sc, bb, ne) for bb, _, _ in somes)
+        ne = bool_edges(sc, Ts, lambda c: c[0] == "call" and (c[1] == "std::ffi::OsStr::is_empty" or c[1].endswith("<impl [T]>::is_empty")), False) + \
+            bool_edges(sc, Ts, lambda c: c[0] == "bin" and c[1] == "Ne" and const_of(c[3]) == 0 and M.contains(c[2], lambda u: u[0] == "call" and u[1].endswith("::len")), True)
+        ok = len(somes) >= 1 and all(dominated_by_edges(sc, bb, ne) for bb, _, _ in somes)
         ctx.ob("R15.5", "no-empty-piece", ok, sc.loc(0), "every Some(piece) must be returned under `!piece.is_empty()` (both exits of the tokeniser)")
     else:
         ctx.missing("R15.5", "split_path closure")
